@@ -17,7 +17,8 @@ type jsKey struct {
 	uses int
 }
 
-const prelude = `var __r = []; function Rec(){ __r.push(Array.prototype.slice.call(arguments)); }`
+const prelude = `var __r = []; function Rec(){ __r.push(Array.prototype.slice.call(arguments)); }
+function RecFC(){ __r.push(["fc"].concat(Array.prototype.slice.call(arguments))); }`
 
 func newJSKey() *jsKey {
 	k := &jsKey{iso: v8.NewIsolate()}
